@@ -19,7 +19,10 @@ DUST = F(1, 10 ** 9)
 def probes_on(model, r, names, stats, report):
     from wsimod.arcs import arcs as A
     arcs = list(model.arcs.values())
-    r.shuffle(arcs)          # (in creation order the probes over upstream arcs would drain what the later ones ask for)
+    if r.random() < 0.5:
+        # in creation order the probes over upstream arcs drain what the later ones ask for; in random order other states
+        # are met: half of the models each way
+        r.shuffle(arcs)
     for arc in arcs:
         kind = type(arc).__name__
         src, dst = type(arc.in_port).__name__, type(arc.out_port).__name__
@@ -131,7 +134,7 @@ def close_v(a, b):
 
 
 def run(rep, thorough, pid="C07"):
-    n = 400 if thorough else (150 if pid in ("C03", "C04", "C11") else 60)
+    n = 400 if thorough else (150 if pid in ("C03", "C04", "C11", "C18") else 100)
     stats = {"models": 0, "probes": 0, "by_class": {}, "violations": 0}
     seen = {}
     stats["after_reinit"] = 0
